@@ -98,6 +98,70 @@ def _ess_probe_job(job):
         shutil.rmtree(out_dir, ignore_errors=True)
 
 
+def _two_samplers_job(job):
+    """Several finished samplers alive in ONE process (a user comparing models), two of them with histories of the same length:
+    posterior() / evidence() asked of one, then of the other, must each describe THAT sampler's own history (property level:
+    weights and log-weights against the independent MIS reference, rows against the stored particles)."""
+    core.import_repo()
+    import warnings
+
+    warnings.filterwarnings("ignore")
+    import numpy as np
+    from vlib import drivers as dr, psrun as ps
+
+    live = {}
+    pair = None
+    for k in range(10):
+        np.random.seed(job["seed"] + 17 * k)
+        s, _ = dr.build_sampler(dict(job["conf"], shift=float(k)), None)
+        try:
+            s.run(n_total=job["n_total"], progress=False)
+        except Exception:
+            continue
+        T = len(s.state._history["beta"])
+        if T in live:
+            pair = (live[T], s)
+            break
+        live[T] = s
+    if pair is None:
+        return {"skipped": "no two runs with equally long histories", "bad": []}
+    bad = []
+    for rnd in range(2):
+        for name, smp in zip("AB", pair):
+            H = smp.state._history
+            ref_logw, ref_logz = ps.ref_logw_logz(H["logl"], H["beta"], H["logz"], 1.0)
+            x, w, logl, logw = smp.posterior(resample=False, trim_importance_weights=False, return_logw=True)
+            ev = float(smp.evidence()[0])
+            flat_x = np.concatenate([np.asarray(b) for b in H["x"]])
+            flat_l = np.concatenate([np.asarray(b, dtype=float) for b in H["logl"]])
+            lw = np.asarray(logw, dtype=float)
+            lw = lw - np.logaddexp.reduce(lw)
+            if not (len(x) == len(flat_x) and np.array_equal(np.asarray(x), flat_x) and np.array_equal(np.asarray(logl, dtype=float), flat_l)):
+                bad.append(f"sampler {name} (round {rnd}): posterior() rows are not its own stored particles")
+            elif not np.allclose(lw, ref_logw, rtol=1e-9, atol=1e-9) or not np.allclose(np.asarray(w), np.exp(ref_logw), rtol=1e-9, atol=1e-12):
+                bad.append(f"sampler {name} (round {rnd}): posterior() weights are not the MIS weights of its own history (max log-weight gap {float(np.max(np.abs(lw - ref_logw))):.3g})")
+            if not abs(ev - ref_logz) <= 1e-9 * max(1.0, abs(ref_logz)):
+                bad.append(f"sampler {name} (round {rnd}): evidence() {ev!r} is not the MIS evidence of its own history {ref_logz!r}")
+    return {"skipped": None, "bad": bad, "T": len(pair[0].state._history["beta"])}
+
+
+def two_samplers_part(ck):
+    from vlib import procs
+
+    jobs = [dict(conf=c, seed=1295 + i + 10 * ck.seed, n_total=24) for i, c in enumerate([dict(clustering=False, n_particles=8), dict(clustering=True, sample="rwm", n_particles=8)])]
+    res = procs.run(_two_samplers_job, jobs, procs=len(jobs), timeout=600)
+    done = 0
+    for j, (st, r) in zip(jobs, res):
+        if st != "ok":
+            raise RuntimeError("two-samplers worker failed: " + str(r)[:400])
+        if r["skipped"]:
+            continue
+        done += 1
+        for b in r["bad"][:1]:
+            ck.violation("two-samplers:posterior", f"two finished samplers in one process, equally long histories: {b} ({j['conf']}, seed {j['seed']})", {"job": j, "all": r["bad"]})
+    return {"two_sampler_processes_checked": done}
+
+
 def termination_probe(ck):
     from vlib import procs, psrun
 
@@ -170,6 +234,7 @@ def main():
     cov.update(sc)
     cov.update(sysrun.selftest(traces[0]))
     cov.update(termination_probe(ck))
+    cov.update(two_samplers_part(ck))
     # the postconditions also hold for resumed runs, including a resume that has nothing left to do (n_total already met)
     from vlib import procs, psrun
 
